@@ -116,6 +116,7 @@ func TestPropForwardedLine(t *testing.T) {
 			t.Fatalf("HARNESS-ERROR: %v", err)
 		}
 		defer agg.Shutdown()
+		aggIn0 := h.Count("unit=Metric.direction=in.aggregator=" + agg.Key)
 		tab.AddAggregator(agg)
 		caps := []*h.CaptureRoute{h.NewCaptureRoute("cap0", matcher.Matcher{}), h.NewCaptureRoute("cap1", matcher.Matcher{})}
 		tab.AddRoute(caps[0])
@@ -242,7 +243,11 @@ func TestPropForwardedLine(t *testing.T) {
 			}
 		}
 		// the aggregation saw the rewritten names (its messages were queued while the buffer was reused)
-		h.AggBarrier(agg)
+		// the aggregation's inbox is buffered: wait until it has taken every line (its in-counter), then close the buckets
+		aggIn := "unit=Metric.direction=in.aggregator=" + agg.Key
+		for dl := time.Now().Add(20 * time.Second); h.Count(aggIn)-aggIn0 < int64(len(want)) && time.Now().Before(dl); {
+			time.Sleep(100 * time.Microsecond)
+		}
 		tick <- time.Unix(5000000000, 0)
 		h.AggBarrier(agg)
 		gotAgg := map[string]int{}
